@@ -174,7 +174,7 @@ func (s *httpSink) handle(w http.ResponseWriter, req *http.Request) {
 		}
 		if json.Unmarshal(body, &d) == nil && len(d.Series) == 1 && len(d.Series[0].Values) == 1 {
 			for ci, c := range d.Series[0].Columns {
-				if c == "i" {
+				if c == "i" || c == "a.i" { // (`a.i`: below a join node)
 					if f, ok := d.Series[0].Values[0][ci].(float64); ok {
 						id = int64(f)
 					}
@@ -223,6 +223,8 @@ func (c *fakeClient) Write(bp influxdb.BatchPoints) error {
 	ids := make([]int64, 0, len(pts))
 	for _, p := range pts {
 		if v, ok := p.Fields["i"].(int64); ok {
+			ids = append(ids, v)
+		} else if v, ok := p.Fields["a.i"].(int64); ok { // below a join node
 			ids = append(ids, v)
 		} else {
 			ids = append(ids, -1)
